@@ -163,7 +163,15 @@ def impl_init():
 
     def impl(c):
         if "http" in c:
-            return {"http": run(lambda: fingerprint_http(bytes.fromhex(c["http"]), options=opts))}
+            raw = bytes.fromhex(c["http"])
+            k = len(raw) % 3          # every accepted buffer type: bytes, bytearray, h11 ReceiveBuffer
+            if k == 2:
+                from h11._receivebuffer import ReceiveBuffer
+                buf = ReceiveBuffer()
+                buf += raw
+            else:
+                buf = bytearray(raw) if k else raw
+            return {"http": run(lambda: fingerprint_http(buf, options=opts))}
         raw = bytes.fromhex(c["raw"])
         try:
             pkt = U.scapy_from_bytes(raw, c["v"])
